@@ -56,7 +56,16 @@ def run_real(order, specs, doc):
     res = v.normalized(dict(doc), always_return_document=True)
     failed = sorted((e.document_path[0] for e in v._errors if e.code == 0x64), key=repr)
     other = [e for e in v._errors if e.code != 0x64]
+    # the resolution starts afresh for every document: the same validator, the same document once more
+    res2 = v.normalized(dict(doc), always_return_document=True)
+    failed2 = sorted((e.document_path[0] for e in v._errors if e.code == 0x64), key=repr)
+    if (res2, failed2) != (res, failed):
+        raise AgainDiffers('first %r / unresolved %r, again on the same validator %r / unresolved %r' % (res, failed, res2, failed2))
     return res, failed, other
+
+
+class AgainDiffers(Exception):
+    pass
 
 
 def one(ctx, drv, order, specs, doc):
@@ -65,6 +74,9 @@ def one(ctx, drv, order, specs, doc):
              'doc': codec.enc_val(doc)}
     try:
         res, failed, other = run_real(order, specs, doc)
+    except AgainDiffers as e:
+        ctx.fail('C17 oracle: the same document normalized twice by one validator gives two results: %s' % e, jcase)
+        return
     except Exception as e:
         ctx.fail('C17 oracle: normalization raised %r' % (e,), jcase)
         return
